@@ -264,7 +264,7 @@ def check_quote_agreement(ctx, rid):
             n += 1
             R, rseq = ref[q]
             loc = f'{kwloc}:{r.line}'
-            key = f'quoted:{q}:{r.pattern}'
+            key = f'quoted:{q}:{rx.canon_pattern(r.pattern)}'
             try:
                 p1 = rx.Prog(None, rx.LEXFLAGS, tree=_mk(seq, r.tree))
                 p2 = rx.Prog(None, rx.LEXFLAGS, tree=_mk(rseq, R.tree))
